@@ -92,10 +92,7 @@ theorem handlePacket_good {s : RState} {id : Nat} {cid : String} {pkt : Packet} 
       gbind (reschedule_good (r := .incomingAck) h1 hc1 (by simp)) with s2 h2 q2
       exact ⟨q2.1, fun e => by rw [q2.2]; exact hn e⟩
   | pubrel pkid hasProps =>
-    cases hasProps with
-    | true => simp only [handlePacket]; exact ⟨h, hn⟩
-    | false =>
-      simp only [handlePacket, hc]
+    · simp only [handlePacket, hc]
       split
       · exact ⟨h.of_set hc rfl (h.trk id c hc) rfl rfl rfl rfl rfl rfl, hn⟩
       · rename_i p rest hrec
